@@ -13,6 +13,7 @@ TNext == /\ l <= Len(Tr) /\ l' = l + 1 /\ UNCHANGED g
                                   /\ \A i \in 1 .. Len(r.segs) : r.segs[i] \in Allowed(r.fmt, r.slot, r.ch)   \* and only in an escaped form of the target
               [] r.e = "order" -> ~r.null /\ r.words = Order(r.ks, r.fmt)                          \* every word once, in the order the format prescribes
               [] r.e = "nest"  -> r.parsed /\ Dyck(r.events)                                       \* everything opened is closed, in order
+              [] r.e = "rawres" -> ~r.null /\ r.leftover = <<>>                                   \* a delimiter that found no partner is text: no reserved character of the target is left bare
               [] r.e = "xml"   -> /\ r.wellformed                                                  \* C08: parses as XML ...
                                   /\ (r.hasbase => r.skeleton = r.baseskeleton)                    \* ... and the text did not change the element structure
                                   /\ (r.hasbase => r.found)                                        \* ... and is found, unescaped by the parser, as the character itself
